@@ -1414,6 +1414,17 @@ func (g *Generator) generateUUIDValidator(gf *protogen.GeneratedFile) {
 	gf.P(`return fmt.Errorf("invalid UUID format")`)
 	gf.P("}")
 	gf.P()
+	gf.P("// Every other position must be a hexadecimal digit")
+	gf.P("for i := 0; i < len(value); i++ {")
+	gf.P("if i == 8 || i == 13 || i == 18 || i == 23 {")
+	gf.P("continue")
+	gf.P("}")
+	gf.P("c := value[i]")
+	gf.P("if !(c >= '0' && c <= '9' || c >= 'a' && c <= 'f' || c >= 'A' && c <= 'F') {")
+	gf.P(`return fmt.Errorf("invalid UUID format")`)
+	gf.P("}")
+	gf.P("}")
+	gf.P()
 	gf.P("return nil")
 	gf.P("}")
 	gf.P()
